@@ -135,7 +135,33 @@ def read_costs(p, names, single):
     return out
 
 
-def respecify(p, specs_all, names, single, rng):
+SWITCHES = ['nothing', 'train_net_only', 'train_nas_only', 'train_net_and_nas', 'train_features=False', 'train_rf=False',
+            'train_dilation=False', 'train_rf=train_dilation=False', 'all-trainable-again']
+
+
+def switch(p, rng, log, where):
+    """one random trainability switch (the property's equalities must hold however these stand: a mask that is
+    not being trained is still binarized and applied by export)"""
+    a = rng.choice(SWITCHES)
+    if a in ('train_net_only', 'train_nas_only', 'train_net_and_nas'):
+        getattr(p, a)()
+    elif a == 'train_features=False':
+        p.train_features = False
+    elif a == 'train_rf=False':
+        p.train_rf = False
+    elif a == 'train_dilation=False':
+        p.train_dilation = False
+    elif a == 'train_rf=train_dilation=False':
+        p.train_rf = False
+        p.train_dilation = False
+    elif a == 'all-trainable-again':
+        p.train_features = True
+        p.train_rf = True
+        p.train_dilation = True
+    log.append('%s:%s' % (where, a))
+
+
+def respecify(p, specs_all, names, single, rng, log=None):
     """after the masks are set: re-assign the cost specification (the documented on-the-fly switch rebuilds the
     layer -> cost function map from the CURRENT layers) and re-observe every cost:
       same      the very same specification again
@@ -144,9 +170,12 @@ def respecify(p, specs_all, names, single, rng):
     all_names = list(specs_all)
     orig = specs_all[names[0]] if single else {n: specs_all[n] for n in names}
     out = {}
+    log = [] if log is None else log
     p.cost_specification = orig
+    switch(p, rng, log, 'respec-same')
     out['same'] = read_costs(p, names, single)
     sw = {'cont': {}, 'disc': {}}
+    switch(p, rng, log, 'respec-switched')
     if single:
         p.cost_specification = dict(specs_all)
         r = read_costs(p, all_names, False)
@@ -159,6 +188,7 @@ def respecify(p, specs_all, names, single, rng):
                 sw[d][n] = r[d][n]
     out['switched'] = sw
     p.cost_specification = orig
+    switch(p, rng, log, 'respec-back')
     out['back'] = read_costs(p, names, single)
     return out
 
@@ -229,14 +259,17 @@ def net_case(torch, seed, opts=None):
         o['orig_plain'] = {n: plain_cost(torch, nn, m, sites0, specs_all[n], counted) for n in all_names}
         o['open'] = read_costs(p, names, single)
         set_masks(torch, rng, p, style, tpat)
+        o['switches'] = []
+        switch(p, rng, o['switches'], 'pruned')
         o['pruned'] = read_costs(p, names, single)
-        o['respec'] = respecify(p, specs_all, names, single, rng)
+        o['respec'] = respecify(p, specs_all, names, single, rng, o['switches'])
         # a PIT wrapper constructed when the masks are ALREADY pruned: the converted seed wrapped again without
         # auto-conversion (its layer -> cost function map is created after the pruning)
         try:
             import copy
             p2 = PIT(copy.deepcopy(p.seed), cost=cost_arg, input_shape=tuple(spec['input_shape']), autoconvert_layers=False, discrete_cost=True, full_cost=full, exclude_names=excl)
             p2.eval()
+            switch(p2, rng, o['switches'], 'rewrap')
             o['rewrap'] = read_costs(p2, names, single)
         except Exception as ex:
             o['rewrap_exc'] = '%s: %s' % (type(ex).__name__, str(ex)[:200])
@@ -258,6 +291,7 @@ def net_case(torch, seed, opts=None):
             layers.append(L)
         o['layers'] = layers
         # --- export, cost from scratch, re-import
+        switch(p, rng, o['switches'], 'export')
         e = p.export()
         e.eval()
         sites1, yshape1 = plain_sites(torch, nn, e, xs)
